@@ -47,6 +47,10 @@ type kind struct {
 	invOK   func(m map[string]string) bool
 	inverse func(w gov.Execer, h uint32)
 	invView bool // the inverse changes the governance view (later txs run at a later height)
+	// optional
+	approvers []string                     // default V1..VN (must all be consensus validators throughout)
+	views0    int                          // governance view changes performed by the setup
+	inverse2  func(w gov.Execer, h uint32) // a second way to undo (black-listing instead of quitting)
 }
 
 type model struct {
@@ -110,7 +114,103 @@ func kinds(e *gov.Env) []*kind {
 			base = append(base, k)
 		}
 	}
+	{
+		// subject histories of a candidacy: a RETURNING peer (was a member before, still owns its peer index) and a
+		// GENESIS peer that quit and re-applies (X's node took its place so that the pool keeps 4 validators)
+		base = append(base, candKind(e, "registerCandidate+returningPeer", "c1", true), candKind(e, "registerCandidate+genesisPeerReapplies", e.V(e.N), true))
+	}
 	return base
+}
+
+// candKind: validator candidacy of peer `subject` (owner = its own address). leftBefore: the setup lets the subject be a
+// pool member and leave (quitNode + commitDpos) before the explored history starts.
+func candKind(e *gov.Env, name, subject string, leftBefore bool) *kind {
+	pk := e.A(subject).PubHex
+	genesis := subject != "c1"
+	cons := func() []*polyenv.Acct { // consensus validators (= commitDpos operator) after the setup
+		if genesis {
+			return append(append([]*polyenv.Acct{}, e.Vals[:e.N-1]...), e.A("X"))
+		}
+		return e.Vals
+	}
+	var approvers []string
+	for i := 1; i <= e.N; i++ {
+		if e.V(i) != subject {
+			approvers = append(approvers, e.V(i))
+		}
+	}
+	if genesis {
+		approvers = append(approvers, "X")
+	}
+	admit := func(w gov.Execer, peer string, by []string, h uint32) {
+		must(e.RegisterCandidate(w, peer, peer, h), "registerCandidate "+peer)
+		inPool := func() bool { _, pool := gov.Pool(w.Dump().Map()); _, in := pool[e.A(peer).PubHex]; return in }
+		for _, v := range by {
+			if inPool() {
+				return
+			}
+			must(e.ApproveCandidate(w, peer, v, h), "approveCandidate "+peer+" by "+v)
+		}
+		if !inPool() {
+			panic("harness: " + peer + " not admitted by every validator")
+		}
+	}
+	leave := func(w gov.Execer, ops []*polyenv.Acct, h uint32) {
+		must(e.QuitNode(w, subject, subject, h), "quitNode")
+		must(gov.CallOperator(w, gov.NM, node_manager.COMMIT_DPOS, nil, ops, h), "commitDpos")
+		if _, pool := gov.Pool(w.Dump().Map()); func() bool { _, in := pool[pk]; return in }() {
+			panic("harness: subject still in the pool after quitNode + commitDpos")
+		}
+	}
+	all := func() []string {
+		var o []string
+		for i := 1; i <= e.N; i++ {
+			o = append(o, e.V(i))
+		}
+		return o
+	}
+	k := &kind{name: name, ids: []uint64{0}, approvers: approvers, invView: true,
+		setup: func(w gov.Execer) {
+			if !leftBefore {
+				return
+			}
+			if genesis {
+				admit(w, "X", all(), h0) // keeps the pool above the minimum when the genesis peer quits; becomes a validator
+			} else {
+				admit(w, subject, all(), h0)
+			}
+			if genesis { // a quitting validator no longer belongs to the operator set
+				leave(w, e.Vals[:e.N-1], h0)
+			} else {
+				leave(w, e.Vals, h0)
+			}
+		},
+		request: func(w gov.Execer, h uint32) (polyenv.Result, uint64) {
+			return e.RegisterCandidate(w, subject, subject, h), 0
+		},
+		approve: func(w gov.Execer, id uint64, who string, h uint32) polyenv.Result {
+			return e.ApproveCandidate(w, subject, who, h)
+		},
+		notify:  "approveCandidate",
+		signKey: func(id uint64) string { return gov.SignKey(node_manager.APPROVE_CANDIDATE, []byte(pk)) },
+		invOK:   func(m map[string]string) bool { _, pool := gov.Pool(m); st, in := pool[pk]; return in && st <= 1 },
+		inverse: func(w gov.Execer, h uint32) { leave(w, cons(), h) },
+		inverse2: func(w gov.Execer, h uint32) { // black-list the subject (validators approve until listed), then commitDpos
+			for _, v := range approvers {
+				if _, pool := gov.Pool(w.Dump().Map()); pool[pk] == 3 { // BlackStatus in the pool (the black LIST entry may predate this membership)
+					break
+				}
+				must(gov.Call(w, gov.NM, node_manager.BLACK_NODE, gov.PeerList([]string{pk}, e.A(v).Addr), e.A(v), h), "blackNode by "+v)
+			}
+			must(gov.CallOperator(w, gov.NM, node_manager.COMMIT_DPOS, nil, cons(), h), "commitDpos")
+			if _, pool := gov.Pool(w.Dump().Map()); func() bool { _, in := pool[pk]; return in }() {
+				panic("harness: subject still in the pool after blackNode + commitDpos")
+			}
+		}}
+	if leftBefore {
+		k.views0 = 1
+	}
+	return k
 }
 
 func kindsBase(e *gov.Env, inForce bool) []*kind {
@@ -171,7 +271,6 @@ func kindsBase(e *gov.Env, inForce bool) []*kind {
 		}, svOut, "approveRemoveStateValidator")
 	}
 	u := gov.U64
-	c1 := e.A("c1").PubHex
 	updTag := "updX"
 	nop := func(w gov.Execer) {}
 	setupRegRel, setupRemRel := nop, func(w gov.Execer) { addRelayer(w, h0) }
@@ -232,21 +331,7 @@ func kindsBase(e *gov.Env, inForce bool) []*kind {
 			}, notify: "ApproveRemoveRelayer",
 			signKey: func(id uint64) string { return gov.SignKey(relayer_manager.APPROVE_REMOVE_RELAYER, u(id)) },
 			invOK:   func(m map[string]string) bool { return !present(m, gov.KeyRelayer(e.A("ra").Addr)) }, inverse: addRelayer},
-		{name: "registerCandidate", ids: []uint64{0}, setup: func(w gov.Execer) {},
-			request: func(w gov.Execer, h uint32) (polyenv.Result, uint64) { return e.RegisterCandidate(w, "c1", "c1", h), 0 },
-			approve: func(w gov.Execer, id uint64, who string, h uint32) polyenv.Result {
-				return e.ApproveCandidate(w, "c1", who, h)
-			},
-			notify:  "approveCandidate",
-			signKey: func(id uint64) string { return gov.SignKey(node_manager.APPROVE_CANDIDATE, []byte(c1)) },
-			invOK:   func(m map[string]string) bool { _, pool := gov.Pool(m); st, in := pool[c1]; return in && st <= 1 },
-			inverse: func(w gov.Execer, h uint32) {
-				must(e.QuitNode(w, "c1", "c1", h), "quitNode")
-				must(e.CommitDpos(w, h), "commitDpos")
-				if _, pool := gov.Pool(w.Dump().Map()); len(pool) != e.N {
-					panic("harness: candidate still in the pool after quitNode + commitDpos")
-				}
-			}, invView: true},
+		candKind(e, "registerCandidate", "c1", false),
 		{name: "registerStateValidator", ids: idsReg, setup: setupRegSV,
 			request: func(w gov.Execer, h uint32) (polyenv.Result, uint64) {
 				id := gov.Counter(w.Dump().Map(), gov.KeySVApplyID())
@@ -306,9 +391,18 @@ func (x *explorer) count(c string) {
 
 func (x *explorer) events(s state, depth int) []string {
 	out := []string{"request", "inverse"}
-	for _, id := range x.k.ids {
+	if x.k.inverse2 != nil {
+		out = append(out, "inverse2")
+	}
+	ap := x.k.approvers
+	if ap == nil {
 		for i := 1; i <= x.e.N; i++ {
-			out = append(out, fmt.Sprintf("approve|%d|%s", id, x.e.V(i)))
+			ap = append(ap, x.e.V(i))
+		}
+	}
+	for _, id := range x.k.ids {
+		for _, a := range ap {
+			out = append(out, fmt.Sprintf("approve|%d|%s", id, a))
 		}
 	}
 	return out
@@ -344,11 +438,15 @@ func (x *explorer) step(s state, evn string) (state, bool) {
 			x.count("request-rejected")
 		}
 		return state{D: w.Dump(), M: nm}, true
-	case evn == "inverse":
+	case evn == "inverse" || evn == "inverse2":
 		if !k.invOK(w.Map()) {
 			return s, false
 		}
-		k.inverse(w, h)
+		if evn == "inverse" {
+			k.inverse(w, h)
+		} else {
+			k.inverse2(w, h)
+		}
 		if k.invView {
 			nm.Views++
 		}
@@ -425,7 +523,7 @@ func (x *explorer) initial() state {
 	if diff := gov.SelfCheck(x.e.Vals, rec.Ops); diff != "" {
 		x.r.HarnessError("map-backed world diverges from the leveldb-backed polyenv world: %s", diff)
 	}
-	return state{D: rec.Dump(), M: model{Pending: map[uint64]bool{}, Since: map[uint64][]string{}, Applied: map[uint64]int{}}}
+	return state{D: rec.Dump(), M: model{Pending: map[uint64]bool{}, Since: map[uint64][]string{}, Applied: map[uint64]int{}, Views: x.k.views0}}
 }
 
 func (x *explorer) run(depth int) mc.Stats {
@@ -507,7 +605,7 @@ func main() {
 			if st.Truncated {
 				r.Capped(fmt.Sprintf("N=%d kind=%s truncated by deadline", n, k.name))
 			} else {
-				if x.cnt["effect-on-pending-request"] == 0 || x.cnt["inverse-applied"] == 0 {
+				if (x.cnt["effect-on-pending-request"] == 0 || x.cnt["inverse-applied"] == 0) && len(x.best) == 0 { // (a violating run may never reach the canonical cycle)
 					r.HarnessError("N=%d kind=%s: canonical request/approve/inverse cycle never completed: %v", n, k.name, x.cnt)
 				}
 				if x.cnt["approval-of-consumed-request-rejected"]+x.cnt["approval-of-consumed-request-accepted-without-effect"]+
